@@ -57,6 +57,7 @@ MY_LEAN_FILES = ["BB/Generated/NumTables.lean", "BB/Lemmas/PowMod.lean", "BB/Mod
 def py_env():
     env = dict(os.environ)
     env.update(PY312)
+    env["NUM_PY_PATH"] = num_py_path()     # every tool reads the same tm/num.py (VERIF_REPO in development)
     return env
 
 
